@@ -43,6 +43,7 @@ pub struct Profile {
     pub exotic_strings: usize, // % of histories with non-ASCII app id / version / channel
     pub real_tool: usize,      // % of histories whose patches come from the real `patch::make_patch`
     pub conc: usize,           // % of mid ops that are concurrent episodes (update ∥ reports, queries, checks)
+    pub reissue: usize,        // % of offers that carry the content (hash, signature, download) of ANOTHER patch number
     pub min_ops: usize,
     pub max_ops: usize,
 }
@@ -62,6 +63,7 @@ pub fn profile(name: &str) -> Profile {
         exotic_strings: 10,
         real_tool: 1,
         conc: 0,
+        reissue: 0,
         min_ops: 12,
         max_ops: 40,
     };
@@ -77,6 +79,9 @@ pub fn profile(name: &str) -> Profile {
         "chaos" => Profile { name: "chaos", conformant: 0, damage: 15, second_init: 15, ..base },
         "init" => Profile { name: "init", second_init: 35, damage: 2, ..base },
         "strings" => Profile { name: "strings", exotic_strings: 100, damage: 0, ..base },
+        // an inconsistent server: the same patch number is re-issued with other bytes (only for properties that
+        // hold for every server: C05, C06)
+        "reissue" => Profile { name: "reissue", conformant: 100, damage: 0, reissue: 35, bad_download: 5, rollback: 20, net_fail: 2, release_change: 0, second_init: 0, ..base },
         "conc" => Profile { name: "conc", conformant: 100, damage: 0, conc: 55, bad_download: 8, rollback: 30, net_fail: 3, release_change: 0, second_init: 0, min_ops: 8, max_ops: 24, ..base },
         _ => base,
     }
@@ -335,14 +340,16 @@ fn gen_resp_pref(rng: &mut Rng, prof: &Profile, ctx: &Ctx, prefer: Option<usize>
         Some(i) => i,
         None => rng.below(ctx.numbers.len()),
     };
+    // the content on offer: normally that of number i; a re-issuing server serves another patch's bytes under it
+    let j = if prof.reissue > 0 && rng.chance(prof.reissue) { rng.below(ctx.numbers.len()) } else { i };
     let offer = Offer {
         number: ctx.numbers[i],
-        hash: gen_hash(rng, ctx, i),
+        hash: gen_hash(rng, ctx, j),
         url: format!("https://cdn.example/patch/{}", ctx.numbers[i]),
-        sig: gen_sig(rng, ctx, i),
+        sig: gen_sig(rng, ctx, j),
     };
     let available = !rng.chance(4); // patch present but patch_available=false
-    (Some(Resp { available, patch: Some(offer), rolled_back }), Some(i))
+    (Some(Resp { available, patch: Some(offer), rolled_back }), Some(j))
 }
 
 fn gen_chan(rng: &mut Rng, ctx: &Ctx) -> Option<String> {
